@@ -435,7 +435,7 @@ Section Run.
     o_ph p' = match k with KStop => ODone (ROk 0) | _ => ODone (RErr ESend) end.
   Proof.
     intros Hn Hx Hend Hp'.
-    destruct (step_new_op S _ o p' Hn Hp') as (k0 & a0 & c0 & t0 & f0 & q & s1 & evs & El & Hid & Hk & Ht & _ & Hqph & _ & HS & HB & _ & _ & _ & Hcl1).
+    destruct (step_new_op S _ o p' Hn Hp') as (k0 & a0 & c0 & t0 & f0 & q & s1 & evs & El & Hid & Hk & Ht & _ & Hqph & _ & HS & HB & _ & _ & _ & Hcl1 & _).
     injection El as <- <- <- <- <-.
     destruct (cores_ok_run f ls _ x Hx) as [_ _ _ _ k5 _ _]. apply k5 in Hend as Hcl.
     assert (Hc1 : forall y, get_actor s1 (o_tgt q) = Some y -> a_closed y = true).
